@@ -341,7 +341,8 @@ def canon(x, depth=0):
     return ("py", type(x).__name__)
 
 
-def run_side(t, call, U, regroup, reexpress, out_mode):
+def run_side(t, call, U, regroup, reexpress, out_mode, raw=None):
+    """`raw`: a list that receives the object the call returned (c07_hist reads the unit label off it)"""
     try:
         args, kwargs, objs = call.materialize(_wrap(U, regroup, reexpress, out_mode))
     except Exception as e:  # noqa: BLE001  (datetime operands of unsupported functions cannot be converted)
@@ -378,6 +379,8 @@ def run_side(t, call, U, regroup, reexpress, out_mode):
             return {"outcome": "raise", "exc": type(e).__name__, "msg": str(e)[:200]}
     import unyt
 
+    if raw is not None:
+        raw.append(r)
     ops = []
     for op, o in objs:
         if isinstance(o, unyt.unyt_array):
@@ -540,7 +543,12 @@ def _sorted_leaf(c):
 def compare(t, dk, sc, seed, mode="p4", regroup=0, out_mode="unyt"):
     """(status, detail).  status ∈ skip-build | no-such-group | raise-both | raises-after-reexpression |
     raises-before-reexpression | same | differ (detail = [(what, text)])"""
-    U = MODES[mode]
+    return compare_units(t, dk, sc, seed, MODES[mode], regroup, out_mode)
+
+
+def compare_units(t, dk, sc, seed, U, regroup=0, out_mode="unyt", raw=None):
+    """`compare` for any provider of units `U` (base/alt/dimless/out, exact); `raw` receives the object the
+    re-expressed call returned"""
     why = skip_reason(t, sc)
     if why:
         return "excluded:" + why, None
@@ -564,7 +572,7 @@ def compare(t, dk, sc, seed, mode="p4", regroup=0, out_mode="unyt"):
         # mode (float64, power-of-four rescaling) compares these cases bit for bit
         return "skip-ill-conditioned", None
     a = run_side(t, call, U, regroup, False, out_mode)
-    b = run_side(t, call, U, regroup, True, out_mode)
+    b = run_side(t, call, U, regroup, True, out_mode, raw)
     if a["outcome"] == "nobuild" or b["outcome"] == "nobuild":
         return "skip-build", a.get("exc") or b.get("exc")
     if a["outcome"] == "raise" and b["outcome"] == "raise":
